@@ -53,6 +53,7 @@ type Engine struct {
 	topModifies    []allocRec
 	topRegionStart int
 	topSplits      []*Term
+	specMemo       map[[2]int]*specEntry
 	topGhostMods   []designator
 
 	abstracted    map[string][]string
